@@ -296,8 +296,10 @@ class Ctx:
             try:
                 found = list(search() or [])
             except Exception as e:  # the search must never hide the broken obligation
+                import traceback
                 found = []
                 self.coverage["search_error"] = repr(e)
+                sys.stderr.write("note: the counter-example search itself failed: %r\n%s\n" % (e, traceback.format_exc()[-1500:]))
         known = load_known()
         unlisted = []
         for v in found:
